@@ -77,12 +77,13 @@ from . import _c04_hist as H
 PROP = "C04"
 LEVEL = "exploration"
 TECHNIQUE = ("runtime monitoring: hooks on the treecompare functions, the Tree aliases and the dendropy.treecalc wrappers "
-             "+ split-set reference oracle + cache-state tracking + object re-use and edit-journal workloads")
+             "+ split-set reference oracle + cache-state tracking + object re-use, edit-journal and library-made seed-move workloads")
 LEVEL_TEXT = ("Hooks around the real treecompare functions (and their Tree / dendropy.treecalc aliases) compare every "
               "observed result with the split-set definitions computed on DendroPy-free specs extracted before the call; "
               "metric axioms are judged on the returned values over generated pools, exhaustive small shapes (n = 1..5), "
               "re-used tree objects queried repeatedly with is_bipartitions_updated=True, and edit journals that mix node-"
-              "level edits, the library's own restructuring methods, encodes and distance calls. The property held on the "
+              "level edits, the library's own restructuring methods, encodes and distance calls, and unrooted trees re-drawn by the "
+              "library's own seed-moving methods (distance to a harness-built twin must be 0). The property held on the "
               "executions listed in the evidence file, nothing more.")
 LEVEL_NOTE = ("Trusted: vf/ref.py (clades, split_lengths, reroot), the oracle code in vf/props/C04.py, _c04_util.py and "
               "_c04_hist.py, TaxonNamespace.taxon_bitmask for decoding returned Bipartition objects, CPython. Coverage is "
